@@ -19,7 +19,7 @@ EXPLANATION = ("Bounded symbolic execution (CrossHair/z3) of the real Light devi
 NONTRIVIAL_RULE = "at least one colour command took effect and the final hardware brightness was compared"
 BOUNDS = {"quick": {"ops": 3, "palette": "5 (quick: colour per operation fixed by rotation)", "priority": "[-3,20] int", "fade_ms": "0 or [1,2000] real", "gap_s": "[0,2.5] real", "backends": 4, "batch_latency_s": "[0,0.2] real"},
           "thorough": {"ops": 4, "palette": 5, "priority": "[-3,20] int", "fade_ms": "0 or [1,2000] real", "gap_s": "[0,2.5] real", "backends": 4}}
-ASSUMPTIONS = ["colours come from a concrete palette (channel arithmetic stays concrete); no colour correction profile / brightness setting in the quick tier",
+ASSUMPTIONS = ["colours come from a concrete palette (channel arithmetic stays concrete); a colour-correction profile is three concrete channel tables assigned to the real profile object (generate_from_parameters, i.e. the gamma/whitepoint float arithmetic, is not executed)",
                "two different keys with equal priority: the statement says 'highest-priority entry'; ties are assumed away",
                "a command that re-uses a key with a lower priority than that key's existing entry is ignored by the code and the statement is silent: assumed away",
                "an operation exactly at a fade end is assumed away"]
@@ -28,6 +28,7 @@ BUDGET = {"quick": 130, "thorough": 600}
 PALETTE = [(255, 0, 0), (0, 0, 255), (100, 100, 100), (255, 255, 255), (40, 120, 200)]
 PALETTE_B = [(200, 200, 200), (100, 100, 100), (50, 50, 50), (255, 0, 0), (100, 200, 50)]
 KEYS = ["a", "b", "c"]
+PROFILE_FNS = (lambda x: x // 2, lambda x: min(255, 2 * x), lambda x: (3 * x) // 4)
 
 
 def setup(part):
@@ -131,6 +132,15 @@ def body(S, t, part):
         # The palette contains colours whose corrected value equals another colour's uncorrected value.
         m.light_controller.brightness_factor = factor
         palette = PALETTE_B
+    # colour-correction profile: the real RGBColorCorrectionProfile object carrying three concrete lookup tables; the oracle applies
+    # the same three functions itself (after the brightness factor, the order Light._schedule_update documents)
+    light._color_correction_profile = None
+    if part.get("profile"):
+        from mpf.core.rgb_color import RGBColorCorrectionProfile
+        prof = RGBColorCorrectionProfile("verif")
+        for ch, fn in enumerate(PROFILE_FNS):
+            prof.assign_channel_lookup_table_values(ch, [fn(x) for x in range(256)])
+        light._set_color_correction_profile(prof)
     model = {}        # key -> (priority, colour)
     lingering = []    # colours of removed/replaced entries that may still contribute to a running fade
     fade_end = [t.loop.time()]          # instant at which the last fade issued so far ends: afterwards nothing lingers
@@ -224,6 +234,8 @@ def body(S, t, part):
                         "logical colour %s, expected %s; model %s; stack %s" % (got, want, model, [(e.key, e.priority) for e in light.stack]))
     if factor is not None:
         want = tuple(int(x * factor) for x in want)
+    if part.get("profile"):
+        want = tuple(fn(x) for fn, x in zip(PROFILE_FNS, want))
     chans = {"red": want[0], "green": want[1], "blue": want[2], "white": min(want)}
     style = part.get("rgbw_style")
     if style == "white_only":           # any shade of white goes to the white channel only
@@ -269,6 +281,11 @@ def scenarios(tier):
         for b in ("batch", "direct", "soft"):
             parts.append(dict(light="l_rgb", backend=b, ops=["color", "color", "remove"], rot=len(parts),
                               pin={"key0": 0, "key1": 1, "key2": 1, "fades0": False, "fades1": True, "fades2": False, "fade_ms1": 1500.0}))
+        # colour-correction profile (three different channel tables), alone and together with the global brightness factor
+        for b in ("virtual", "soft", "direct", "batch"):
+            parts.append(dict(light="l_rgb", backend=b, ops=["color", "color", "remove"], rot=len(parts), profile=True))
+            parts.append(dict(light="l_rgb", backend=b, ops=["color", "remove", "color"], rot=len(parts), profile=True, brightness=0.5))
+        parts.append(dict(light="l_rgbw", backend="virtual", ops=["color", "color"], rot=2, rgbw_style="duck_rgb", profile=True))
         for k, style in enumerate(("white_only", "min_rgb", "duck_rgb")):
             parts.append(dict(light="l_rgbw", backend="virtual", ops=["color", "color"], rot=k + 1, rgbw_style=style))
             parts.append(dict(light="l_rgbw", backend="virtual", ops=["color", "remove"], rot=k + 2, rgbw_style=style))
@@ -281,8 +298,13 @@ def scenarios(tier):
             for s3 in (["color", "color", "remove"], ["color", "color", "color"], ["color", "remove", "color"]):
                 parts.append(dict(light="l_rgb", backend=b, ops=["color"] + s3, brightness=0.5))
                 parts.append(dict(light="l_rgb", backend=b, ops=["color"] + s3, brightness=0.25, pin={"fade_ms1": 300.0, "fade_ms2": 1200.0, "fade_ms3": 100.0}))
+        for b in ("virtual", "soft", "direct", "batch"):
+            for s3 in (["color", "color", "remove"], ["color", "remove", "color"], ["color", "color", "clear"]):
+                parts.append(dict(light="l_rgb", backend=b, ops=["color"] + s3, profile=True))
+                parts.append(dict(light="l_rgb", backend=b, ops=["color"] + s3, profile=True, brightness=0.5))
         for style in ("white_only", "min_rgb", "duck_rgb"):
             for b in ("virtual", "soft"):
                 parts.append(dict(light="l_rgbw", backend=b, ops=["color", "color", "remove", "color"], rgbw_style=style))
+                parts.append(dict(light="l_rgbw", backend=b, ops=["color", "color", "remove"], rgbw_style=style, profile=True))
     pb = 40 if tier == "quick" else 300
     return [Scenario("stack", setup, body, parts, teardown=teardown, part_budget=pb, per_path_timeout=30)]
